@@ -170,7 +170,9 @@ def oracle(c, ans):
             for cat in sorted(set(x[0] for x in p)):
                 desc = '; '.join(x[1] for x in p if x[0] == cat)[:200]
                 if lv:
-                    if cat in ('value', 'count', 'other', 'error') and not (cat == 'value' and len(c.defns) > 1):
+                    if cat == 'neg-zero':
+                        out.append(('negative-zero-written-as-zero', 'valid block: %s' % desc, i))
+                    elif cat in ('value', 'count', 'other', 'error') and not (cat == 'value' and len(c.defns) > 1):
                         out.append(('written-value-changed', 'valid block, %s: %s' % (cat, desc), i))
                 else:
                     if cat in ('value', 'f32', 'hex-lost'):
